@@ -37,6 +37,11 @@ INPUT_ROLES = {'default_enter': {'value'}, 'default_exit': {'old_parent'}, 'rema
                'research': {'root'}, 'get_path': {'root', 'cur'}, 'default_visit': {'value'}}
 
 
+def is_id_key(w, v):
+    e = w.expand(v)
+    return isinstance(e, ast.Call) and call_name(e) == 'id' and len(e.args) == 1
+
+
 def root_name(e):
     while isinstance(e, (ast.Attribute, ast.Subscript, ast.Call)):
         e = e.func if isinstance(e, ast.Call) else e.value
@@ -74,8 +79,16 @@ def run(ctx):
             over_value = 'value' in {x.id for x in ast.walk(items) if isinstance(x, ast.Name)}
             ctx.ob('T20.enter', de.fq, 'a traversed container gets a fresh empty instance of its own class as new parent (`%s`) and an '
                    'iterator over its items (`%s`)' % (txt(parent), txt(items)), fresh and over_value, loc=loc(de, n))
-    if n_trav < 3:
-        ctx.ob('T20.enter', de.fq, 'mappings, sequences and sets are traversed', False, loc=de.loc, detail='%d traversing returns' % n_trav)
+    w0, paths0 = paths_of(prog, de)
+    kinds = set()
+    for p in paths0:
+        if p.kind == 'return' and isinstance(p.outcome[1], ast.Tuple) and len(p.outcome[1].elts) == 2 and \
+                not (isinstance(p.outcome[1].elts[1], ast.Constant) and p.outcome[1].elts[1].value is False):
+            for t, truth, o in tests_on(w0, p):
+                if t.startswith('isinstance(value, ') and truth:
+                    kinds |= {x.strip(' ()') for x in t[len('isinstance(value, '):-1].split(',')}
+    ctx.ob('T20.enter', de.fq, 'mappings, sequences and sets are all traversed', {'Mapping', 'Sequence', 'Set'} <= kinds, loc=de.loc,
+           detail='kinds traversed: %s' % sorted(kinds))
     # default_exit
     dx = prog.func(M + '.default_exit')
     w, paths = paths_of(prog, dx)
@@ -105,7 +118,7 @@ def run(ctx):
                 n_exit += 1
                 tk = [nm for nm, info in w.tokens.items() if info[0] == 'call' and len(info) > 2 and info[2] is o]
                 old = txt(w.expand(o.val.args[2])) if len(o.val.args) > 2 else None
-                st = [x for x in ops if x.kind == 'sub_store' and txt(x.node.value) == 'registry' and x.seq > o.seq and tk and txt(x.info) == tk[0]]
+                st = [x for x in ops if x.kind == 'sub_store' and is_id_key(w, x.val.slice) and x.seq > o.seq and tk and txt(x.info) == tk[0]]
                 ok = False
                 if st:
                     k = w.expand(st[0].val.slice)
@@ -118,7 +131,7 @@ def run(ctx):
                 trav = [x for t, truth, x in ts if t.endswith('is not False') and truth and x.seq > o.seq]
                 if trav:
                     n_enter += 1
-                    st = [x for x in ops if x.kind == 'sub_store' and txt(x.node.value) == 'registry' and x.seq > trav[0].seq]
+                    st = [x for x in ops if x.kind == 'sub_store' and is_id_key(w, x.val.slice) and x.seq > trav[0].seq]
                     ok = False
                     if st and tk:
                         k = w.expand(st[0].val.slice)
@@ -143,13 +156,44 @@ def run(ctx):
     ctx.ob('T9.path', rm.fq, 'the path is extended by the key for every entered container except the root (identity test against root, '
            'not a test on the key: None is a legal key)', ok, loc=loc(rm, ext[0]) if ext else rm.loc,
            detail='; '.join(txt(n.test) for n in ext))
-    lookups = [n for n in ast.walk(rm.node) if isinstance(n, ast.If) and 'in registry' in txt(n.test)]
-    ok = bool(lookups) and any(isinstance(s, ast.Assign) and txt(s.value).startswith('registry[') for l in lookups for s in l.body)
-    ctx.ob('T2.reg', rm.fq, 'an already registered id resolves to the registered value (shared objects rebuilt once, cycles terminate)', ok, loc=rm.loc)
+    hit = False
+    for p in paths:
+        for t, truth, o in tests_on(w, p):
+            e = w.expand(o.val)
+            e2 = e
+            while isinstance(e2, ast.UnaryOp):
+                e2 = e2.operand
+            if isinstance(e2, ast.Compare) and len(e2.ops) == 1 and isinstance(e2.ops[0], ast.In) and \
+                    isinstance(e2.left, ast.Call) and call_name(e2.left) == 'id' and truth:
+                cont = txt(e2.comparators[0])
+                loads = [x for x in p.ops if x.kind == 'sub_load' and txt(x.val.value) == cont and is_id_key(w, x.val.slice) and x.seq > o.seq]
+                if loads:
+                    hit = True
+    ctx.ob('T2.reg', rm.fq, 'an already registered id resolves to the registered value (shared objects rebuilt once, cycles terminate)', hit, loc=rm.loc)
     # research
     rs = prog.func(M + '.research')
-    src = ast.unparse(rs.node)
-    ok = 'ret.append((path + (key,), value))' in src and 'remap(root, enter=_enter)' in src and 'return enter(path, key, value)' in src
-    ctx.ob('T17.research', rs.fq, 'research records (path + (key,), value) and traverses with remap through the given enter', ok, loc=rs.loc)
+    inner = [n for n in rs.node.body if isinstance(n, ast.FunctionDef)]
+    ok = False
+    det = ''
+    for fn in inner:
+        ps = [a.arg for a in fn.args.args]
+        if len(ps) != 3:
+            continue
+        pth, key, val = ps
+        appends = [n for n in ast.walk(fn) if isinstance(n, ast.Call) and isinstance(n.func, ast.Attribute) and n.func.attr == 'append' and n.args
+                   and isinstance(n.args[0], ast.Tuple) and len(n.args[0].elts) == 2
+                   and txt(n.args[0].elts[0]).replace(' ', '') == '%s+(%s,)' % (pth, key) and txt(n.args[0].elts[1]) == val]
+        rets = [n for n in ast.walk(fn) if isinstance(n, ast.Return) and isinstance(n.value, ast.Call) and txt(n.value.func) == 'enter'
+                and [txt(a) for a in n.value.args] == [pth, key, val]]
+        queried = any(isinstance(n, ast.Call) and txt(n.func) == 'query' and [txt(a) for a in n.args] == [pth, key, val] for n in ast.walk(fn))
+        calls = [n for n in ast.walk(rs.node) if isinstance(n, ast.Call) and call_name(n) == 'remap' and n.args and txt(n.args[0]) == 'root'
+                 and any(k.arg == 'enter' and txt(k.value) == fn.name for k in n.keywords)]
+        if appends and rets and queried and calls:
+            lst = txt(appends[0].func.value)
+            returned = any(isinstance(n, ast.Return) and txt(n.value) == lst for n in rs.node.body)
+            ok = returned
+            det = 'collector %s via %s' % (lst, fn.name)
+    ctx.ob('T17.research', rs.fq, 'research records (path + (key,), value) for matching items, delegates to the given enter and traverses '
+           'with remap(root, enter=<its wrapper>)', ok, loc=rs.loc, detail=det)
     for r, n in (('T8.input', 6), ('T20.enter', 4), ('T20.exit', 3), ('T2.reg', 3), ('T17.research', 1), ('T9.path', 1)):
         ctx.need(r, n)
